@@ -20,7 +20,7 @@ def RULE(tier):
         "on_connect, each with its own journal) joined by a simulated link whose frames are delivered one at a time by the "
         "harness. Actions: application send on either side (unique payload; accepted iff send_msg returns), deliver the next "
         "in-flight frame in either direction (or all in-flight frames of one direction coalesced into one read), break the connection (everything in flight lost; each end sees EOF / "
-        "ConnectionResetError on read / OSError on read / a failing drain), end the connection gracefully from either side (public disconnect() with a Logout; counted against the break budget; in walks, fixed sequences and the thorough DFS), reconnect (real connect() / _handle_accept() over "
+        "ConnectionResetError on read / OSError on read / a failing drain; or right behind a frame that is still read, so that the reader notices through the failing write of whatever it sends while handling it), end the connection gracefully from either side (public disconnect() with a Logout; counted against the break budget; in walks, fixed sequences and the thorough DFS), reconnect (real connect() / _handle_accept() over "
         f"fresh streams + Logon), and (walks and fixed sequences only) a keep-alive probe (TestRequest, answered by the peer's Heartbeat), switching a side's application to answering every received message from inside on_message, arming a side's on_message to call disconnect() once, and arming a side's on_message to raise once after it recorded the message. Bounded-exhaustive DFS over all action sequences up to depth {b['depth']} with <= {b['sends']} sends "
         f"and <= {b['breaks']} breaks of kinds {b['kinds']} (each sequence re-executed from scratch, deduplicated by a hash of both "
         f"state enums, the four counters, both journals, FIFO contents and delivery counts), plus Hypothesis walks up to {WALK[tier]} "
@@ -53,6 +53,10 @@ def enabled(d, budget):
     if d.link_alive() and budget["breaks"] > 0:
         for k in budget["kinds"]:
             acts.append(("break", k))
+        if budget.get("logout", True):
+            for frm in ("c", "s"):
+                if d.can_deliver(frm) and isinstance(d.fifo(frm)[0], bytes):
+                    acts.append(("deliver_brk", frm))
         # a graceful end (disconnect() with a Logout) also ends the connection; frames in flight TO the leaving side are lost
         for side in ("c", "s"):
             if budget.get("logout", True) and d.ep[side].connection_state.name in ("ACTIVE", "RESENDREQ_AWAITING", "RESENDREQ_HANDLING"):
@@ -69,6 +73,11 @@ def apply(d, a, flags):
         return r
     if a[0] == "deliver":
         d.deliver(a[1])
+    elif a[0] == "deliver_brk":
+        if d.accepted["c"] or d.accepted["s"]:
+            flags.add("break-with-frames-in-flight")
+        flags.add("break-noticed-on-write")
+        d.deliver_breaking(a[1])
     elif a[0] == "deliver_all":
         d.deliver_all(a[1])
         flags.add("coalesced-read")
@@ -214,6 +223,8 @@ def run_walk(acc, steps):
             cat = ["send", "deliver", "deliver_all", "break", "reconnect", "send", "deliver", "any"][choice % 8]
             if cat == "break" and choice % 3 == 0:
                 cat = "logout"
+            elif cat == "break" and choice % 3 == 1:
+                cat = "deliver_brk"
             if choice % 41 == 0:
                 acts = [("arm", "c"), ("arm", "s"), ("armd", "c"), ("armd", "s")]
             elif choice % 37 == 0:
@@ -254,6 +265,9 @@ FIXED = [
     # an application that ends the connection from inside on_message; the same session reconnects
     [("send", "c"), ("send", "c"), ("armd", "s"), ("deliver", "c"), ("reconnect",), ("send", "c"), ("send", "s")],
     [("send", "s"), ("armd", "c"), ("deliver", "s"), ("send", "s"), ("reconnect",), ("armd", "c"), ("send", "s")],
+    # the receiver answers from inside on_message and notices the break through the failing write of that answer
+    [("responder", "s"), ("send", "c"), ("deliver", "c"), ("send", "c"), ("send", "c"), ("deliver_brk", "c"), ("reconnect",), ("send", "c")],
+    [("responder", "c"), ("send", "s"), ("deliver_brk", "s"), ("reconnect",), ("send", "s"), ("deliver", "s"), ("send", "c")],
     # an application that answers from inside on_message, across a loss and the replay that follows
     [("responder", "s"), ("send", "c"), ("deliver", "c"), ("send", "c"), ("send", "c"), ("break", "eof"), ("reconnect",), ("send", "c")],
     [("responder", "c"), ("responder", "s"), ("send", "s"), ("send", "c"), ("deliver_all", "s"), ("break", "eof"), ("reconnect",), ("send", "s")],
@@ -266,8 +280,9 @@ def fixed(acc):
         d = Duo()
         eff = []
         try:
-            for a in seq:
-                if a[0] in ("deliver", "deliver_all") and not d.can_deliver(a[1]):
+            # a fresh pair has the client's Logon in flight: complete the Logon exchange first
+            for a in [("deliver", "c"), ("deliver", "s")] + list(seq):
+                if a[0] in ("deliver", "deliver_all", "deliver_brk") and not d.can_deliver(a[1]):
                     continue
                 if a[0] == "deliver_all" and len(d.fifo(a[1])) < 2:
                     a = ("deliver", a[1])
